@@ -179,6 +179,24 @@ pub fn exec(c: &mut Option<Chain>, op: &Value) -> Value {
                 }
             }
         }
+        "pushlist" => {
+            let text = text_of(&op["text"]);
+            let before = ch.len();
+            match catch_res(|| ch.push_uci_list(&text)) {
+                Ok(Ok(())) => {
+                    o.insert("res".into(), json!("ok"));
+                }
+                Ok(Err(e)) => {
+                    o.insert("res".into(), json!("err"));
+                    o.insert("errpos".into(), json!(e.pos));
+                    o.insert("err".into(), json!(e.to_string()));
+                }
+                Err(()) => {
+                    o.insert("res".into(), json!("panic"));
+                }
+            }
+            o.insert("pushed".into(), json!(ch.len() - before));
+        }
         "pop" => match ch.pop() {
             Some(m) => {
                 o.insert("res".into(), json!("some"));
@@ -527,7 +545,28 @@ pub fn session(rng: &mut StdRng, ctx: &Ctx, start: &Board, nops: usize, profile:
                 "walk" => (60, 66),
                 _ => (62, 74),
             };
-            if r < p_push && rng.gen_bool(0.08) {
+            if r < p_push && rng.gen_bool(0.06) {
+                // a whitespace-separated list of one to three moves played out on a scratch board; the last token is
+                // sometimes replaced by an illegal or malformed one (what was pushed before it stays)
+                let mut b2 = ch.last().clone();
+                let mut toks: Vec<String> = Vec::new();
+                for _ in 0..rng.gen_range(1..4) {
+                    match crate::posgen::pick_move(rng, &b2) {
+                        Some(m) => {
+                            toks.push(m.to_string());
+                            b2 = b2.make_move(m).unwrap();
+                        }
+                        None => break,
+                    }
+                }
+                match rng.gen_range(0..4) {
+                    0 => toks.push("e1e1".into()),
+                    1 => toks.push("zz99".into()),
+                    _ => {}
+                }
+                let sep = *[" ", "  ", "\t", "\n", " \n "].choose(rng).unwrap();
+                json!({"op": "pushlist", "text": text_json(&toks.join(sep))})
+            } else if r < p_push && rng.gen_bool(0.08) {
                 // a value of the unsafe-to-construct TryUnchecked kind, within its contract
                 let m = if !ch.last().is_check() && rng.gen_bool(0.6) { Some(Move::NULL) } else { crate::posgen::pick_move(rng, ch.last()) };
                 match m {
